@@ -110,23 +110,33 @@ NPaths(m, n) == IPow(m, n)
 StateAt(k, t, m) == (((k - 1) \div IPow(m, t - 1)) % m) + 1
 PathOf(k, n, m) == Tup([t \in 1..n |-> StateAt(k, t, m)], n)
 
-RECURSIVE FilterIdx(_, _, _)
-FilterIdx(cond, lo, hi) ==          \* ascending sequence of the k in lo..hi with cond[k]
-  IF lo > hi THEN <<>> ELSE (IF cond[lo] THEN <<lo>> ELSE <<>>) \o FilterIdx(cond, lo + 1, hi)
-
 (* Index tables of the path space, independent of any weights (evaluated   *)
-(* once per (m, n) as constant definitions of the using module):           *)
+(* once per (m, n) as constant definitions of the using module; built      *)
+(* without deep recursion because TLC evaluates constants on a small stack):*)
 (*   paths[k]       the k-th path as a sequence of states                  *)
-(*   sel[t][i]      the paths with state i at position t                   *)
-(*   pair[t][i][j]  the paths with states i, j at positions t, t+1         *)
+(*   sel[t][i]      the numbers of the paths with state i at position t    *)
+(*   pair[t][i][j]  the numbers of the paths with states i, j at t, t+1    *)
+(* With s = m^(t-1): the paths with digit i at position t are the numbers  *)
+(* lo + (i-1) s + hi s m + 1, lo in 0..s-1, hi >= 0 (and likewise for two  *)
+(* adjacent digits).                                                       *)
 Tables(m, n) ==
   LET np == NPaths(m, n)
-      ps == Tup([k \in 1..np |-> PathOf(k, n, m)], np)
-  IN [paths |-> ps,
-      sel   |-> Tup([t \in 1..n |-> Tup([i \in 1..m |->
-                  FilterIdx(Tup([k \in 1..np |-> ps[k][t] = i], np), 1, np)], m)], n),
-      pair  |-> Tup([t \in 1..(n - 1) |-> Tup([i \in 1..m |-> Tup([j \in 1..m |->
-                  FilterIdx(Tup([k \in 1..np |-> ps[k][t] = i /\ ps[k][t + 1] = j], np), 1, np)], m)], m)], n - 1)]
+  IN [paths |-> Tup([k \in 1..np |-> PathOf(k, n, m)], np),
+      sel   |-> Tup([t \in 1..n |-> LET s == IPow(m, t - 1) IN Tup([i \in 1..m |->
+                  Tup([r \in 1..(np \div m) |->
+                         ((r - 1) % s) + (i - 1) * s + ((r - 1) \div s) * s * m + 1], np \div m)], m)], n),
+      pair  |-> Tup([t \in 1..(n - 1) |-> LET s == IPow(m, t - 1) IN Tup([i \in 1..m |-> Tup([j \in 1..m |->
+                  Tup([r \in 1..(np \div (m * m)) |->
+                         ((r - 1) % s) + (i - 1) * s + (j - 1) * s * m + ((r - 1) \div s) * s * m * m + 1],
+                      np \div (m * m))], m)], m)], n - 1)]
+
+(* the tables are what their names say (checked once by the using modules) *)
+TablesOK(T, m, n) ==
+  /\ \A t \in 1..n : \A i \in 1..m :
+       {T.sel[t][i][r] : r \in 1..Len(T.sel[t][i])} = {k \in 1..NPaths(m, n) : T.paths[k][t] = i}
+  /\ \A t \in 1..(n - 1) : \A i \in 1..m : \A j \in 1..m :
+       {T.pair[t][i][j][r] : r \in 1..Len(T.pair[t][i][j])} =
+         {k \in 1..NPaths(m, n) : T.paths[k][t] = i /\ T.paths[k][t + 1] = j}
 
 (* weight (numerator over Den) of every path: the product of its factors *)
 RECURSIVE ProdPath(_, _, _)
